@@ -6,3 +6,102 @@ def model_check(ctx):
         ctx.mc('bridge', 'MC_IterBridge', 'IB_3_f%s.cfg' % f, timeout=300)
     ctx.mc('bridge', 'MC_IterBridge', 'W_result.cfg', expect_violation='ErrorAfterN', timeout=300)
     ctx.mc('bridge', 'MC_IterBridge', 'W_leak.cfg', expect_violation='NeverLeaked', timeout=300)
+
+
+# ---------------------------------------------------------------------------------------------
+# implementation conformance (code -> spec): recorded executions against IterBridge.tla
+import json as _json
+import os as _os
+import re as _re
+import shutil as _shutil
+from concurrent.futures import ThreadPoolExecutor as _TPE
+
+_KEEP = ('Produce', 'SrcFail', 'SrcEnd', 'Got', 'Stop', 'GotExc', 'Threads')
+
+
+def _prep(sc, r):
+    ev = []
+    for e in r['events']:
+        k = e['e']
+        if k not in _KEEP:
+            continue
+        d = {'e': k, 'alive': e.get('alive', 0)}
+        if 'j' in e:
+            d['j'] = e['j']
+        if k == 'GotExc':
+            d['exctype'] = e.get('exctype', '')
+        ev.append(d)
+    if not any(d['e'] in ('SrcFail', 'SrcEnd') for d in ev):
+        return None                      # the source is not instrumented (list / range / plain iterator)
+    fa = sc['src'].get('fail_at')
+    return {'events': ev, 'n': len(sc['src']['xs']), 'fail_at': -1 if fa is None else fa, 'which': sc['which']}
+
+
+def _one(p):
+    from harness import tlc
+    mod = '---- MODULE MC_IterBridgeConform ----\nEXTENDS IterBridgeConform\nCFailAt == %d\n====\n' % p['fail_at']
+    cfg = ('INIT CInit\nNEXT CNext\nCONSTANTS\n N = %d\n FailAt <- CFailAt\n AwaitFuture = TRUE\n JoinPool = TRUE\n'
+           'CONSTRAINT Reached\nCONSTRAINT NotYetAccepted\nCHECK_DEADLOCK FALSE\n' % p['n'])
+    work = tlc.scratch('ibconf-')
+    try:
+        tf = _os.path.join(work, 'trace.json')
+        with open(tf, 'w') as f:
+            _json.dump(p['events'], f)
+        out, dt, rc = tlc.run_tlc('bridge', 'MC_IterBridgeConform', 'MC_IterBridgeConform.cfg', workers=1,
+                                  timeout=int(_os.environ.get('CONF_TIMEOUT', '90')), env={'TRACE_FILE': tf},
+                                  cfg_text=cfg, extra_files={'MC_IterBridgeConform.tla': mod}, jvm=['-Dtlc2.tool.queue.IStateQueue=StateDeque'], heap='1g')
+    finally:
+        _shutil.rmtree(work, ignore_errors=True)
+    r = tlc.parse_mc(out)
+    best = 1
+    for m in _re.finditer(r'<< ?"REACHED", 1, (\d+), (\d+) ?>>', _re.sub(r'\s+', ' ', out)):
+        best = max(best, int(m.group(1)))
+    err = r['error']
+    return best, len(p['events']) + 1, err, r['distinct'], r['generated'], (out[out.find('Error:'):][:900] if err and err != 'timeout' else '')
+
+
+def conformance(ctx, executed, limit=30):
+    classes = {}
+    seen = set()
+    for sc, r, v in executed:
+        if r.get('status') != 'ok' or any(x is not None for x in v.values()):
+            continue
+        p = _prep(sc, r)
+        if p is None or not (2 <= len(p['events']) <= 40):
+            continue
+        key = _json.dumps(p, sort_keys=True)
+        if key in seen:
+            continue
+        seen.add(key)
+        classes.setdefault((p['which'], p['fail_at'] >= 0), []).append(p)
+    for v in classes.values():
+        v.sort(key=lambda p: -len(p['events']))
+    picked = []
+    while len(picked) < limit and any(classes.values()):
+        for k in sorted(classes):
+            if classes[k] and len(picked) < limit:
+                picked.append(classes[k].pop(0))
+    acc = und = 0
+    drift = []
+    with _TPE(8) as ex:
+        for p, (best, n, err, ds, gen, tail) in zip(picked, ex.map(_one, picked)):
+            ctx.cov['states'] += ds
+            ctx.cov['transitions'] += gen
+            if best >= n:
+                acc += 1
+            elif err == 'timeout':
+                und += 1
+            elif err:
+                ctx.notes.append('bridge conformance: TLC error: %s' % (tail,))
+                und += 1
+            else:
+                drift.append({'matched_prefix': best - 1, 'of': n - 1, 'which': p['which'], 'n': p['n'], 'fail_at': p['fail_at'],
+                              'first_unexplained': p['events'][best - 1], 'events': p['events'][:best]})
+    ctx.cov['conformance'] = {'traces_checked': len(picked), 'accepted': acc, 'drift': len(drift), 'undecided': und,
+                              'drift_samples': drift[:3],
+                              'what': 'recorded executions of to_async_iter / to_sync_iter validated against IterBridge.tla: source '
+                                      'hands out / raises / ends in the producer thread, consumer receives, end of iteration, thread '
+                                      'census; sentinel, future completion, bubble, pool shutdown silent; projected state (produced, '
+                                      'received, worker alive) compared at every observable point'}
+    ctx.cov['conformance_divergences'] = len(drift)
+    return len(picked), acc, drift
